@@ -72,6 +72,7 @@ typedef struct emUsage {
 	Foam		*remap;		/* Vector of remaps to locals */
 	BPack(Bool)	mark;		/* mark for detecting circular links */
 	BPack(Bool)	isSet;		/* has an assignment been seen? */
+	int		nDefs;		/* assignments seen in this marking run */
 	struct emUsage	*link;		/* for following aliases of locals */
 } *EmUsage;
 
@@ -288,6 +289,7 @@ emMakeUsageVec(Foam ddecl)
 		emu[i].type   = 0;
 		emu[i].decl   = NULL;
 		emu[i].isSet  = false;
+		emu[i].nDefs  = 0;
 		emu[i].format = emptyFormatSlot;
 	}
 	emu[0].used = EM_NonEscapingEnv;	/* for Env(0) */
@@ -424,6 +426,7 @@ emMarkDef(Foam def)
 	FoamTag ltag = foamTag(lhs), rtag = foamTag(rhs);
 	EmUsage usage;
 	Bool 	wasSet = 999;
+	Bool	multi = false;
 
 	assert(foamTag(def) == FOAM_Set || foamTag(def) == FOAM_Def);
 
@@ -435,6 +438,12 @@ emMarkDef(Foam def)
 		usage         = emUsage(lhs);
 		wasSet 	      = usage->isSet;
 		usage->isSet  = true;
+		/*
+		 * A local which is given a second value may stand for
+		 * different structures at different times: its uses
+		 * cannot be replaced by the parts of any one of them.
+		 */
+		multi	      = ++usage->nDefs > 1;
 		if (emIsMergingCandidate(rhs)) {
 			/*
 			 * What is the actual usage of this local
@@ -444,7 +453,7 @@ emMarkDef(Foam def)
 
 
 			/* Check for reuse of locals */
-			if (usage->type) {
+			if (usage->type || (multi && emUsage(lhs)->link)) {
 				/*
 				 * This local has already been allocated
 				 * heap storage and we are now allocating
@@ -483,7 +492,7 @@ emMarkDef(Foam def)
 
 	if (foamTag(rhs0) == FOAM_Loc) {
 		if (ltag == FOAM_Loc) {
-			if (emUsageAliasing(lhs)->used ==
+			if (multi || emUsageAliasing(lhs)->used ==
 			    EM_EscapingEnv) {
 				emMarkLocal(rhs0);
 				emMarkLocal(lhs);
@@ -522,6 +531,10 @@ emMarkDef(Foam def)
 		if (rhs0->foamEnv.level == 0) {
 			emUsage(lhs)->link = emUsage(rhs0);
 		}
+	}
+	else if (ltag == FOAM_Loc && multi && emUsage(lhs)->link &&
+		 foamTag(rhs0) != FOAM_MFmt) {
+		emMarkLocal(lhs);
 	}
 	else if (foamTag(rhs0) == FOAM_MFmt) {
 		/*
@@ -1363,6 +1376,7 @@ emCleanTypeUsage()
 	int i;
 	for (i = 0 ; i < emOrigNumLocals ;i++) {
 		emUsageFromLocalIndex((long)i)->type = (Foam) 0 ;
+		emUsageFromLocalIndex((long)i)->nDefs = 0;
 	}
 	
 }
